@@ -178,13 +178,22 @@ def check(ctx):
         ctx.ob("R08.3", q + ":early-return", econj and [ast.unparse(x) for x in ea[:2]] == [self_ + ".cod", self_ + ".dom"], found=ast.unparse(extra.value)[:100],
                required="every path of dagger swaps the types and conjugates the array", mod=TEN, node=extra, sig="dagger-early-return")
     r = ret_expr(fn.body[-1:])
-    args = tensor_ctor_args(r)
+    via_method = isinstance(r, ast.Call) and isinstance(r.func, ast.Attribute) and r.func.attr == "conjugate" and not r.args and tensor_ctor_args(r.func.value) is not None
+    args = tensor_ctor_args(r.func.value if via_method else r)
     ctx.need(args is not None, "Tensor.dagger does not end with Tensor(dom, cod, array)")
     ctx.ob("R08.3", q + ":types", [ast.unparse(x) for x in args[:2]] == [self_ + ".cod", self_ + ".dom"], found=[ast.unparse(x) for x in args[:2]], required="cod -> dom",
            mod=TEN, node=r, sig="dagger-types")
     arr = shape.inline(args[2], fn.body)
-    conj = isinstance(arr, ast.Call) and ast.unparse(arr.func).endswith("conjugate")
-    inner = arr.args[0] if conj and arr.args else arr
+    conj = via_method or (isinstance(arr, ast.Call) and ast.unparse(arr.func).endswith("conjugate"))
+    inner = arr if via_method else (arr.args[0] if conj and arr.args else arr)
+    # Tensor.conjugate itself conjugates on every path (dagger, CQMap.pure and user code rely on it)
+    cj = m.func(TEN + ".Tensor.conjugate")
+    cself = cj.args.args[0].arg
+    rets = [x for x in ast.walk(cj) if isinstance(x, ast.Return)]
+    badc = [ast.unparse(x)[:70] for x in rets if not (tensor_ctor_args(x.value) is not None and [ast.unparse(a) for a in tensor_ctor_args(x.value)[:2]] == [cself + ".dom", cself + ".cod"]
+                                                       and ast.unparse(tensor_ctor_args(x.value)[2]) in ("Tensor.np.conjugate(%s.array)" % cself, "%s.array.conjugate()" % cself, "%s.array.conj()" % cself))]
+    ctx.ob("R08.3", TEN + ".Tensor.conjugate", bool(rets) and not badc, found=badc or "every path returns the entry-wise conjugate with the same types", required="Tensor(self.dom, self.cod, conjugate(self.array)) on every path "
+           "(no dtype-dependent shortcut: complex64, object arrays of complex numbers, … are not `complex`)", mod=TEN, node=cj, sig="conjugate")
     ctx.ob("R08.3", q + ":conjugate", conj, found=ast.unparse(arr)[:80], required="the array handed to Tensor passes through conjugate", mod=TEN, node=r, sig="dagger-conjugate")
     inner = shape.inline(inner, fn.body)
     probs = []
@@ -295,6 +304,8 @@ def check(ctx):
         ctx.analysed(TEN + ".Dim." + d_)
         shape.match(ctx, "R08.5", TEN + ".Dim." + d_, ret_expr(fn.body), ["Dim(*self[::-1])", "Dim(*reversed(self))"], {}, mod=TEN, node=fn, sig="dim-" + d_,
                     required="adjoint of a dimension = the reversed dimension (self-dual wires)")
+    from .c01 import check_then_guards
+    check_then_guards(ctx, rule="R08.1", only=("discopy.tensor.Tensor.then",))
     ctx.floor("R08.1", 3)
     ctx.floor("R08.2", 3)
     ctx.floor("R08.3", 3)
